@@ -65,13 +65,13 @@ def run_case(case, acc, order):
                         edge = any(samples[i] < nsw or samples[i] >= A.shape[0] - nsw for i in ids)
                         acc.step(edge or ids != sorted(ids), 'D:%s' % tag)
                         ok = isinstance(got, np.ndarray) and got.shape == exp.shape and \
-                            np.array_equal(np.asarray(got, dtype=np.float64), exp)
+                            np.array_equal(np.asarray(got, dtype=np.float64), exp, equal_nan=True)
                         if ok and dtype_exp is not None and got.dtype != dtype_exp:
                             ok = False
                         if not ok:
                             kind = type(got).__name__ if isinstance(got, BaseException) else (
                                 'shape' if got.shape != exp.shape else
-                                ('value' if not np.array_equal(np.asarray(got, dtype=np.float64), exp)
+                                ('value' if not np.array_equal(np.asarray(got, dtype=np.float64), exp, equal_nan=True)
                                  else 'dtype'))
                             bad.append(('model-' + tag, kind, {'spikes': ids, 'channels': ch},
                                         describe(exp), describe(got)))
@@ -88,7 +88,7 @@ def run_case(case, acc, order):
                         got = call()
                         exp = np.stack([window(A, samples[i], nsw, chl) for i in ids]).astype(np.float64)
                         ok = isinstance(got, np.ndarray) and got.shape == exp.shape and \
-                            np.array_equal(np.asarray(got, dtype=np.float64), exp)
+                            np.array_equal(np.asarray(got, dtype=np.float64), exp, equal_nan=True)
                     except Exception as e:
                         got, ok, exp = e, False, None
                     acc.step(True, 'D:unit-route')
@@ -196,6 +196,10 @@ def explore(ctx):
                                 'channel_map': cmap, 'time_dtype': tdt, 'features': 'absent',
                                 'tfeatures': 'absent', 'sample_rate': [100.0, 10 / 600.0][i % 2],
                                 'fill': ctx.seed + i}
+                        if raw_dtype == 'float32' and (i // 3) % 2 == 0:
+                            # inf / NaN / -inf samples inside the windows of three spikes: a window is
+                            # returned as it is in the recording, by every route
+                            spec['raw_nonfinite'] = True
                         cases.append({'spec': spec, 'factors': [1, 2.5] if i % 2 else [1.0, 2]})
     for cmap in ('identity', 'perm'):
         spikes = [0, 1, 2, 9, 10, n_raw - 2, n_raw - 1]
@@ -204,6 +208,15 @@ def explore(ctx):
                                'raw': True, 'raw_dtype': 'int16', 'channel_map': cmap,
                                'time_dtype': 'uint64', 'features': 'absent', 'tfeatures': 'absent',
                                'sample_rate': 100.0, 'fill': ctx.seed}, 'factors': [1, 2.5]})
+    # a 272-channel probe: templates peaking on the highest channels, whose stored channel rows (ordered
+    # by distance from the peak) are decreasing and name channels beyond 256
+    spikes = [0, 1, 2, 9, 10, n_raw - 2, n_raw - 1]
+    cases.append({'spec': {'n_spikes': len(spikes), 'n_templates': 3, 'n_channels': 272,
+                           'geometry': 'col14', 'nsw': 4, 'n_raw': n_raw, 'spike_samples': spikes,
+                           'profile': [[float(300 - abs(c - pk)) for c in range(272)] for pk in (271, 260, 5)],
+                           'raw': True, 'raw_dtype': 'int16', 'channel_map': 'identity',
+                           'time_dtype': 'uint64', 'features': 'absent', 'tfeatures': 'absent',
+                           'sample_rate': 100.0, 'fill': ctx.seed}, 'factors': [1, 2.5]})
     # every spike belongs to one template (the others are unused), the first export draws 3 of the 7
     # spikes, the recording spans three chunks
     for tdt in ('uint64', 'int64'):
